@@ -62,6 +62,10 @@ type gen struct {
 
 	vals     map[ssa.Value]*Val
 	fnNamed  map[int]bool
+	// recursive spec functions (see evalRec)
+	recName     map[string]string
+	recUnfolded map[int]bool
+	recProbe    map[string]bool
 	incoming map[*ssa.BasicBlock][]*edge
 	done     map[*ssa.BasicBlock]bool
 	loops    map[*ssa.BasicBlock]*loopInfo
